@@ -9,7 +9,7 @@ fn unhex(s: &str) -> Vec<u8> {
     (0..s.len() / 2).filter_map(|i| u8::from_str_radix(&s[2 * i..2 * i + 2], 16).ok()).collect()
 }
 
-pub const SHAPES: [&str; 9] = ["seq", "key", "flowseq", "flowmap", "alt-block", "alt-flow", "block-flow", "key-per-level", "mix"];
+pub const SHAPES: [&str; 10] = ["seq", "key", "flowseq", "flowmap", "alt-block", "alt-flow", "block-flow", "key-per-level", "block-leaf", "mix"];
 pub const APIS: [&str; 8] = ["iter", "load", "load_str_forget", "load_str_drop", "load_marked_drop", "built_drop", "emit", "emit_ml"];
 
 /// Build the nested input. `mix` uses the opener word given (indices into OPENERS).
@@ -44,6 +44,24 @@ pub fn nest_text(shape: &str, depth: usize, word: &[u8]) -> String {
             s = "- ".repeat(depth);
             s.push_str(&"[".repeat(200.min(depth)));
             s.push_str(&"]".repeat(200.min(depth)));
+        }
+        "block-leaf" => {
+            // block sequences with a literal block scalar as the innermost node: content lines at
+            // 2*depth columns, separated by spaces-only lines of widths around the 16-character
+            // window of the iterator back-end and around the content indentation
+            s = "- ".repeat(depth);
+            s.push_str("|\n");
+            let ind = 2 * depth;
+            for w in [15usize, 16, 17, 31, 32, 47, 48, ind.saturating_sub(1), ind] {
+                s.push_str(&" ".repeat(ind));
+                s.push_str("x\n");
+                if w <= ind {
+                    s.push_str(&" ".repeat(w));
+                    s.push('\n');
+                }
+            }
+            s.push_str(&" ".repeat(ind));
+            s.push('y');
         }
         "key-per-level" => {
             for d in 0..depth {
